@@ -487,9 +487,13 @@ fn text_parsing(ctx: &Ctx, r: &mut Report) {
 	let mut rng = Rng::new(ctx.seed ^ 0x7E57);
 	let inds = reg::indicators();
 	for _ in 0..ctx.pick(20_000, 400_000) {
-		let len = rng.below(24) as usize;
+		// mostly short texts; one in five is long (up to 160 characters) and rich in multi-byte characters, so that every
+		// byte offset up to a few hundred falls inside a character for some text
+		let long = rng.chance(0.2);
+		let len = if long { 20 + rng.below(140) as usize } else { rng.below(24) as usize };
 		let s: String = (0..len)
-			.map(|_| match rng.below(8) {
+			.map(|_| match if long { rng.below(3) } else { rng.below(8) } {
+				0 if long => *rng.pick(&['é', 'я', '中', '𝄞', 'ß', '€', '日', '🙂', 'ａ']),
 				0 => char::from_u32(rng.below(0x11_0000) as u32).unwrap_or('\u{FFFD}'),
 				1 => *rng.pick(&['-', '+', '.', 'e', 'E', ' ', '\t', '\0', '_']),
 				2 | 3 => (b'0' + rng.below(10) as u8) as char,
@@ -504,6 +508,12 @@ fn text_parsing(ctx: &Ctx, r: &mut Report) {
 		}
 		if let Err(p) = guard(|| Source::from_str(&s).is_ok()) {
 			r.violate(&format!("C10|Source::from_str|panic:{}|profile={PROFILE}", p.class()), &p.msg, || json!({"text": s}));
+		}
+		if let Err(p) = guard(|| (Source::try_from(s.as_str()).is_ok(), Source::try_from(s.clone()).is_ok(), s.parse::<MA>().is_ok())) {
+			r.violate(&format!("C10|TryFrom<text>|panic:{}|profile={PROFILE}", p.class()), &p.msg, || json!({"text": s}));
+		}
+		if long {
+			r.cell("text-parsing:long-multibyte");
 		}
 		let d = &inds[rng.below(inds.len() as u64) as usize];
 		let mut c = (d.default)();
